@@ -57,6 +57,7 @@ def generate(seed, tier):
     channels = rw.choice([1, 2, 2])
     data = SC.gen_data_spec(rw, N, channels)
     cfg = SC.gen_config(rw, N, backends=(W.backend_of({"world": world}),), allow_custom=True, allow_band=False)
+    cfg["layout"] = rw.choice(SC.LAYOUTS)      # how a two-channel record is handed over (2xN, its transposed view, a list of rows)
     if rw.random() < 0.5:
         cfg["scheduler"] = "custom"
         cfg["Lmin"] = 1
